@@ -103,13 +103,13 @@ def main(argv=None):
     for r in refuted:
         viol.setdefault((base(r['name']), r.get('script', '')), r)
     os.makedirs(os.path.join(ROOT, 'replays'), exist_ok=True)
-    nviol = 0
+    nviol = 0; search_cache = {}
     for (name, script), r in viol.items():
         rep = {'property': prop, 'obligation': name, 'script': script, 'model': r.get('model', {}), 'job': r.get('job'), 'solver': r.get('backend'),
                'solver_output': 'sat (counter-model found): ' + script}
         confirmed = None
         if r.get('bounded_input'):
-            rep['native_replay'] = {'failing_input_found_by_bounded_enumeration_on_the_real_code': r['bounded_input']}
+            rep['native_replay'] = {'failing_input_found_by_bounded_enumeration_on_the_real_code': r['bounded_input'], 'stand_in': registry.bounded_for(r.get('job'))}
             confirmed = True
         try:
             if confirmed:
@@ -122,6 +122,23 @@ def main(argv=None):
         except Exception as ex:
             if not confirmed:
                 rep['native_replay'] = 'no driver: %s' % ex
+        if confirmed is None and not os.environ.get('PYVC_NO_REPLAY'):
+            # no scenario can be built from this counter-model: look for a concrete failing input with the unit family's native battery (bounded)
+            fb = registry.search_for(r.get('job')) if hasattr(registry, 'search_for') else None
+            if fb:
+                if fb not in search_cache:
+                    try:
+                        p_ = subprocess.run(['/venv/bin/python', os.path.join(ROOT, fb)], capture_output=True, text=True, timeout=900, cwd='/repo', env=dict(os.environ, PYTHONPATH='/repo'))
+                        search_cache[fb] = (p_.returncode, (p_.stdout.strip().splitlines() or [''])[-1][:3000])
+                    except Exception as ex_:      # noqa
+                        search_cache[fb] = (3, 'battery failed to run: %s' % ex_)
+                rc_, last_ = search_cache[fb]
+                if rc_ == 1:
+                    confirmed = True
+                    rep['native_search'] = {'stand_in': fb, 'failing_input_on_the_real_code': last_,
+                                            'note': 'found by a bounded native search over the inputs of this unit family, not derived from the counter-model'}
+                else:
+                    rep['native_search'] = {'stand_in': fb, 'result': 'no failing input within the bound' if rc_ == 0 else last_}
         if confirmed is False:
             # the real code satisfies the clause on this scenario: abstraction too coarse -> undecided, not a violation
             undecided.append({'obligation': name, 'reason': 'counter-model does not replay on the real code: ' + script}); continue
